@@ -264,10 +264,11 @@ def main():
             w = fn()
             run.add_bounded(f"{name}: native evaluation of the top-level contract on the real function (CPython cross-check)",
                             "small texts / chunkings / line sequences, see props/c15.py", getattr(fn, "evaluations", 0), w is None, str(w or ""))
+    from props import lean_glue
+    lean_glue.lemmas(run, "Lines.lean", ["first_nl", "L1_unique"], "emit precondition + emitted == consumed determine the (line, terminator) pieces of a text uniquely: every chunking hands the same pieces to the processors")
     run.trust("z3 4.8.12 / z3 5.1.0 / cvc5 1.0.3 (SMT-LIB strings)", "E-PY symbolic semantics of the Python subset (vk/epy.py)",
-              "Lean lemma L1 (uniqueness of the line decomposition) -- see lean/L1.lean")
-    run.assume("SMT-LIB Unicode strings (code points <= 0x2FFFF) stand for Python str",
-               "emit precondition + emitted == consumed characterises the line decomposition of the complete text uniquely (L1)")
+              "lean 4 (lemma L1: uniqueness of the line decomposition, lean/Lines.lean, checked on every run)")
+    run.assume("SMT-LIB Unicode strings (code points <= 0x2FFFF) stand for Python str")
     run.explanation = ("every chunk is an arbitrary string, the chunk sequence arbitrary and unbounded; the loops are cut at "
                        "inductive invariants over the ghost text consumed/emitted")
     return run.finish()
